@@ -5,11 +5,49 @@
   Imports models/specs only (no Mathlib, no proofs) so it links as a native executable.
 -/
 import ASV.Drv.C01
+import ASV.Drv.C02
+import ASV.Drv.C03
+import ASV.Drv.C04
+import ASV.Drv.C05
+import ASV.Drv.C06
+import ASV.Drv.C07
+import ASV.Drv.C08
+import ASV.Drv.C09
+import ASV.Drv.C10
+import ASV.Drv.C11
+import ASV.Drv.C12
+import ASV.Drv.C13
+import ASV.Drv.C14
+import ASV.Drv.C15
+import ASV.Drv.C16
+import ASV.Drv.C17
+import ASV.Drv.C18
+import ASV.Drv.C19
+import ASV.Drv.C20
 open Lean ASV.Drv
 
 def dispatch (p : String) (j : Json) : R Json :=
   match p with
   | "C01" => ASV.Drv.C01.handle j
+  | "C02" => ASV.Drv.C02.handle j
+  | "C03" => ASV.Drv.C03.handle j
+  | "C04" => ASV.Drv.C04.handle j
+  | "C05" => ASV.Drv.C05.handle j
+  | "C06" => ASV.Drv.C06.handle j
+  | "C07" => ASV.Drv.C07.handle j
+  | "C08" => ASV.Drv.C08.handle j
+  | "C09" => ASV.Drv.C09.handle j
+  | "C10" => ASV.Drv.C10.handle j
+  | "C11" => ASV.Drv.C11.handle j
+  | "C12" => ASV.Drv.C12.handle j
+  | "C13" => ASV.Drv.C13.handle j
+  | "C14" => ASV.Drv.C14.handle j
+  | "C15" => ASV.Drv.C15.handle j
+  | "C16" => ASV.Drv.C16.handle j
+  | "C17" => ASV.Drv.C17.handle j
+  | "C18" => ASV.Drv.C18.handle j
+  | "C19" => ASV.Drv.C19.handle j
+  | "C20" => ASV.Drv.C20.handle j
   | _ => throw s!"unknown property {p}"
 
 def handleLine (line : String) : String :=
